@@ -94,6 +94,17 @@ PROPS = {
                      "else 5s (rel. tol. 1e-9), no timeout answer before the virtual deadline and one in the step that reaches it, late replies have no "
                      "effect, sanitizers silent. Non-trivial = at least one armed duration was compared and the scenario has a timeout or a race step; "
                      "distinct = scenario hash."),
+    "C08": scen("c08", ["default", "default", "default", "local"],
+                quick=dict(cases=900, size=60), thorough=dict(cases=30000, size=100, budget_s=3000),
+                rule="rapidcheck-generated credential files (1-6 users, group universes of 3, 6 and the full 32 groups, random fetch/set/call group sets, DES/MD5/"
+                     "SHA-256/SHA-512 hashes computed by the harness, admin/readonly flags) or no credential file; elements added with random access declarations "
+                     "(including none and groups nobody holds); sequences of authenticate (right password, wrong password, unknown user, repeated, switching "
+                     "users) / fetch / unfetch / get / set / call / reply on raw, local-socket and WebSocket connections from loopback and remote v4-mapped/v6 "
+                     "origins; allocator fill byte drawn from {00,FF,BE,55,01,80}; in the local variant add must be accepted exactly from loopback and local-"
+                     "socket origins. Oracle: the group-intersection reference model (responses, notifications, get results, routed delivery) plus a scan of every "
+                     "byte sent and every log line for each password used (right or attempted). Non-trivial = credential file with >=2 users, >=1 successful "
+                     "authenticate, >=1 element invisible to an authenticated peer or a denied set/call, and >=1 request by an unauthenticated peer (default); "
+                     "adds from both local and remote origins (local variant); distinct = scenario hash."),
     "C09": scen("c09", ["default"],
                 quick=dict(cases=450, size=60), thorough=dict(cases=12000, size=100, budget_s=3000),
                 rule="rapidcheck-generated base sessions (2-5 raw/WebSocket/local-socket connections; valid requests, batches, hostile ids, zero-length prefixes, "
